@@ -314,8 +314,11 @@ def terminal_rules(ctx, rep):
 
 
 def dispatcher_rules(ctx, rep):
-    """DerivativeRuleDispatcher: Grad/ReferenceGrad pick the dimension from the last axis; the Indexed
-    rule is the index-plumbing homomorphism."""
+    """DerivativeRuleDispatcher: each derivative type is handed to its ruleset (a call-graph fact); the Grad /
+    ReferenceGrad rules are interpreted with recording stand-ins for the rulesets on nodes whose operand axes and
+    derivative axis differ in length: the ruleset is built for the length of the node's last axis and applied to the
+    operand; terminal rules are interpreted (the terminal itself comes back); the Indexed rule is the index-plumbing
+    homomorphism."""
     from .c02 import Harness, cmp
 
     disp = ctx.prog.get_class(f"{MOD}.DerivativeRuleDispatcher")
@@ -331,20 +334,44 @@ def dispatcher_rules(ctx, rep):
             rep.violation("C03-dispatch", h.func, f"{tname} -> {rs}", f"the dispatcher rule for {tname} does not construct a {rs}")
             continue
         rep.ok("C03-dispatch", h.func, f"{tname} handled by a {rs}")
-        if tname in ("Grad", "ReferenceGrad"):
-            arg = norm(ctor[0].args[0]) if ctor[0].args else ""
-            assigns = {t.id: norm(st.value) for st in ast.walk(h.func.node) if isinstance(st, ast.Assign) for t in st.targets if isinstance(t, ast.Name)}
-            dim_src = assigns.get(arg, arg)
-            o_name = h.func.params()[1]
-            if dim_src == f"{o_name}.ufl_shape[-1]":
-                rep.ok("C03-dispatch/dim", h.func, f"{rs} dimension taken from the last axis of the {tname} node")
+    # the ruleset is built for the length of the derivative node's last axis: the dispatcher rule interpreted with recording
+    # stand-ins for the rulesets, on derivative nodes whose operand axes and derivative axis have different lengths
+    for tname, rs in (("Grad", "GradRuleset"), ("ReferenceGrad", "ReferenceGradRuleset")):
+        for opshape, dim in (((), 2), ((3,), 2), ((2,), 3), ((3, 3), 2)):
+            Hd = Harness(ctx, "DerivativeRuleDispatcher", ())
+            seen = []
+
+            def ruleset(d, *a_, **k_):
+                seen.append(d)
+                r = Obj("ruleset")
+                r.attrs["__class__"] = None
+                r.attrs["__call__"] = lambda f_: ("expanded", f_)
+                return r
+
+            Hd.ip.class_models[rs] = ruleset
+            Hd.selfobj.attrs["_dag_traverser_cache"] = {}
+            f_ = terminal("f", opshape)
+            o = node(T.symbolic("df", opshape + (dim,)), tname, (f_,))
+            try:
+                h, got = Hd.apply(tname, o, [f_])
+            except LiftRaise as ex:
+                rep.violation("C03-dispatch/dim", tab.get(tname).func, f"{tname} of an operand of shape {opshape}", f"the dispatcher rule raises: {ex.what[:100]}")
+                continue
+            if seen == [dim] and isinstance(got, tuple) and got[1] is f_:
+                rep.ok("C03-dispatch/dim", h.func, f"{tname} node of shape {opshape + (dim,)}: a {rs} for dimension {dim} (the last axis) expands the operand")
             else:
-                rep.violation("C03-dispatch/dim", h.func, f"{rs}({arg}) with {arg} = {dim_src}", f"the derivative dimension of {tname} must be the length of its last axis ({o_name}.ufl_shape[-1]), found {dim_src}")
+                rep.violation("C03-dispatch/dim", h.func, f"{tname} node of shape {opshape + (dim,)}", f"the dispatcher builds {rs}{tuple(seen)} for a {tname} node of shape {opshape + (dim,)}: the derivative dimension is the length of the node's last axis, {dim}")
     # terminals are returned unchanged, unknown Derivative types raise
     for t in ctx.tm.concrete():
         h = tab.get(t.name)
         if t.traits["is_terminal"]:
-            ok = h is not None and len(h.func.node.body) <= 2 and norm(h.func.node.body[-1]) == f"return {h.func.params()[1]}"
+            Ht = Harness(ctx, "DerivativeRuleDispatcher", ())
+            o = terminal("t", (), t.name)
+            try:
+                _, got = Ht.apply(t.name, o, [])
+                ok = got is o
+            except (LiftRaise, AnalysisError):
+                ok = False
             (rep.ok if ok else rep.violation)(*(("C03-dispatch/terminal", h.func, f"{t.name} returned unchanged") if ok else ("C03-dispatch/terminal", disp, t.name, f"terminal {t.name} is not returned unchanged by the dispatcher")))
         elif t.cls.is_subclass_of("Derivative") and not t.cls.is_subclass_of("CompoundDerivative") or t.name in ("Grad", "ReferenceGrad"):
             if h is None or h.func.name == "reuse_if_untouched" or "reuse_if_untouched" in norm(h.func.node.body[-1]):
